@@ -803,6 +803,22 @@ impl TypeLayout {
         }
     }
 
+    /// Does this type leave the kind of a value open? That is the type of a bare `nil` and of a list
+    /// literal without elements, `[]`, on their own or nested (`[nil]`, `[[]]`, `[1, []]`). Such a type is
+    /// compatible with every optional / every list type, so a value that has it must not be reachable
+    /// under a name: it could be handed out as a `[int...]` here and as a `[str...]` there.
+    pub fn is_undetermined(&self) -> bool {
+        match self.disregard_distractors(false) {
+            Self::Optional(None) => true,
+            Self::Optional(Some(ty)) => ty.is_undetermined(),
+            Self::List(ListType::Mixed(types)) => {
+                types.is_empty() || types.iter().any(|ty| ty.is_undetermined())
+            }
+            Self::List(ListType::Open(ty)) => ty.is_undetermined(),
+            _ => false,
+        }
+    }
+
     pub fn is_float(&self) -> bool {
         let me = self.get_type_recursively();
 
